@@ -227,6 +227,34 @@ class Ctx:
             raise ToolError("TLC model checking of %s with %s did not complete cleanly (rc=%s)" % (spec, cfg, rc))
         return info, out
 
+    def apalache_inductive(self, spec, cinit, init, ind_init, inv, timeout=1500, label=None):
+        """Apalache: show `inv` inductive for the typed design-level module `spec`
+        (base: init => inv at length 0; step: ind_init /\ Next => inv' at length 1).
+        Strictly additional to TLC + conformance: a design-level result, so anything
+        but two clean NoError outcomes is a tool error, never a VIOLATION."""
+        spec_dir = os.path.dirname(os.path.join(SPECS, spec))
+        module = os.path.basename(spec) + ".tla"
+        runs = []
+        for name, i, length in (("base", init, 0), ("step", ind_init, 1)):
+            out_dir = self.path("apalache_%s_%s" % (re.sub(r"\W", "_", module), name))
+            cmd = ["apalache-mc", "check", "--out-dir=" + out_dir, "--cinit=" + cinit, "--init=" + i,
+                   "--inv=" + inv, "--length=%d" % length, module]
+            t = time.time()
+            rc, out = self.run(cmd, cwd=spec_dir, timeout=timeout)
+            dt = time.time() - t
+            shutil.rmtree(out_dir, ignore_errors=True)
+            ok = rc == 0 and "The outcome is: NoError" in out
+            runs.append({"obligation": name, "init": i, "length": length, "ok": ok, "wall_s": round(dt, 1)})
+            self.log("Apalache %s %s (%s => %s%s): ok=%s, %.1fs" % (spec, name, i, inv, "'" if length else "", ok, dt))
+            if not ok:
+                sys.stdout.write(out[-4000:])
+                raise ToolError("Apalache could not discharge the %s obligation of %s for %s (rc=%s)" % (name, inv, spec, rc))
+        info = {"spec": spec, "invariant": inv, "cinit": cinit, "obligations": runs, "ok": True}
+        if label:
+            info["label"] = label
+        self.cov.setdefault("inductive_runs", []).append(info)
+        return info
+
     def tlc_generate(self, spec, cfg, outfile, workers=4, timeout=1200, env=None, extra=None, tag="REPLAY", heap="8g"):
         """Run TLC as a behaviour generator: collect <<"REPLAY", "<json>">> lines."""
         rc, out, dt = self._tlc(spec, cfg, workers, timeout, env=env, extra=extra, heap=heap)
